@@ -332,6 +332,34 @@ def Statement_td_join_swap : Prop :=
   ∀ (n : Nat) (ds : DSet) (init : Row n) (a b : P n) (g : Store) (μ : Row n),
     (evalTD ds init (.join a b) g μ).Perm (evalTD ds init (.join b a) g μ)
 
+/-- the same graph names, and under each name two stores that answer exactly once over the same set of triples -/
+inductive SameData : List (Term × Store) → List (Term × Store) → Prop
+  | nil : SameData [] []
+  | cons {k : Term} {s s' : Store} {l l' : List (Term × Store)} :
+      (∃ d d', ExactlyOnce s d ∧ ExactlyOnce s' d' ∧ SetEq d d') → SameData l l' →
+      SameData ((k, s) :: l) ((k, s') :: l')
+
+/-- The evaluator as it runs reaches its stores only through `triples`: the same data (default graph and named
+    graphs) behind other stores gives the same bag — through every operator, GRAPH included. -/
+def Statement_td_store_irrelevant : Prop :=
+  ∀ (n : Nat) (ds ds' : DSet) (init : Row n) (pv : List (Fin n)) (q : P n),
+    (∃ d d', ExactlyOnce ds.dflt d ∧ ExactlyOnce ds'.dflt d' ∧ SetEq d d') → SameData ds.named ds'.named →
+    (evalSelectTD ds init pv q).Perm (evalSelectTD ds' init pv q)
+
+theorem td_store_irrelevant : Statement_td_store_irrelevant := by
+  intro n ds ds' init pv q hd hn
+  have hgen : ∀ {l l' : List (Term × Store)}, SameData l l' → NamedEq l l' := by
+    intro l l' h
+    induction h with
+    | nil => exact .nil
+    | cons h _ ih =>
+      obtain ⟨d, d', h1, h2, e⟩ := h
+      exact .cons (exactlyOnce_perm h1 h2 e) ih
+  have hne : NamedEq ds.named ds'.named := hgen hn
+  obtain ⟨d, d', h1, h2, e⟩ := hd
+  have hdf : StoreEq ds.dflt ds'.dflt := exactlyOnce_perm h1 h2 e
+  exact (evalTD_store_congr ⟨hdf, hne⟩ init q ds.dflt ds'.dflt init hdf).map _
+
 theorem td_bgp_reorder : Statement_td_bgp_reorder := by
   intro n ds init q q' hds h
   have hgood : ds.Good := fun x hx => by
